@@ -19,13 +19,15 @@ import (
 // that are multiples of 8 values, so round trips never show how the decoder
 // treats the others.
 type ForeignCase struct {
-	Width int      `json:"width"` // 1 = booleans (with the 4-byte length prefix of BOOLEAN data), 2-3 = levels
+	Width int      `json:"width"` // 1 = booleans (with the 4-byte length prefix of BOOLEAN data), 2-8 = levels, 9-32 (and Int32 set) = dictionary indexes / integers
+	Int32 bool     `json:"int32,omitempty"`
 	Runs  [][3]int `json:"runs"`  // (kind 0 RLE | 1 bit-packed, count, value or seed)
 }
 
 func genForeignCase(t *rapid.T) ForeignCase {
 	var c ForeignCase
-	c.Width = rapid.IntRange(1, 3).Draw(t, "width")
+	c.Width = []int{1, 1, 2, 3, 4, 7, 8, 9, 12, 16, 17, 20, 24, 31, 32}[rapid.IntRange(0, 14).Draw(t, "width")]
+	c.Int32 = c.Width > 8 || (c.Width > 1 && rapid.Bool().Draw(t, "int32"))
 	n := rapid.IntRange(1, 6).Draw(t, "nruns")
 	for i := 0; i < n; i++ {
 		kind := rapid.IntRange(0, 1).Draw(t, "kind")
@@ -44,10 +46,10 @@ func uvarint(b []byte, x uint64) []byte {
 }
 
 func runForeignCase(c ForeignCase, o *kit.Obs) *kit.Failure {
-	if c.Width < 1 || c.Width > 8 || len(c.Runs) == 0 {
+	if c.Width < 1 || c.Width > 32 || len(c.Runs) == 0 {
 		return kit.Failf("harness/bad-case", "width %d", c.Width)
 	}
-	mask := 1<<uint(c.Width) - 1
+	mask := int(uint64(1)<<uint(c.Width) - 1)
 	var want []int
 	var body []byte
 	odd := false
@@ -55,9 +57,12 @@ func runForeignCase(c ForeignCase, o *kit.Obs) *kit.Failure {
 		kind, count, v := r[0], r[1], r[2]
 		if kind == 0 {
 			body = uvarint(body, uint64(count)<<1)
-			body = append(body, byte(v&mask)) // the repeated value on ceil(width/8) = 1 byte
+			rv := (v * 2654435761) & mask
+			for b := 0; b < (c.Width+7)/8; b++ { // the repeated value on ceil(width/8) bytes, little endian
+				body = append(body, byte(rv>>(8*uint(b))))
+			}
 			for i := 0; i < count; i++ {
-				want = append(want, v&mask)
+				want = append(want, rv)
 			}
 			odd = odd || count%8 != 0
 			continue
@@ -71,7 +76,7 @@ func runForeignCase(c ForeignCase, o *kit.Obs) *kit.Failure {
 			x = x*1664525 + 1013904223
 			val := 0
 			if i < count {
-				val = int(x>>13) & mask
+				val = int(x>>3) & mask
 				want = append(want, val)
 			}
 			acc |= uint64(val) << uint(nbits)
@@ -100,6 +105,19 @@ func runForeignCase(c ForeignCase, o *kit.Obs) *kit.Failure {
 				return kit.Failf("c04/foreign-rle/values-differ"+feat, "DecodeBoolean: value %d of %d is %d, the stream encodes %d (runs %v)", i, len(want), int(got[i/8]>>(uint(i)%8))&1, w, c.Runs)
 			}
 		}
+	} else if c.Int32 {
+		got, err := e.DecodeInt32(nil, body)
+		if err != nil {
+			return kit.Failf("c04/foreign-rle/decode-error"+feat, "DecodeInt32 of a valid stream (runs %v): %v", c.Runs, err)
+		}
+		if len(got) < len(want) {
+			return kit.Failf("c04/foreign-rle/count"+feat, "DecodeInt32 returned %d values, the stream encodes %d (runs %v)", len(got), len(want), c.Runs)
+		}
+		for i, w := range want {
+			if int(uint32(got[i])) != w {
+				return kit.Failf("c04/foreign-rle/values-differ"+feat, "DecodeInt32: value %d of %d is %d, the stream encodes %d (runs %v)", i, len(want), uint32(got[i]), w, c.Runs)
+			}
+		}
 	} else {
 		got, err := e.DecodeLevels(nil, body)
 		if err != nil {
@@ -125,7 +143,7 @@ func runForeignCase(c ForeignCase, o *kit.Obs) *kit.Failure {
 var foreignSpec = &kit.Spec[ForeignCase]{
 	Property: "C04",
 	Name:     "foreignrle",
-	Rule: "RLE / bit-packing hybrid streams built from the format description (1-6 runs, RLE runs of 1..100 values — not only multiples of 8 —, bit-packed runs of whole groups, the last one possibly padded; bit widths 1-3; " +
+	Rule: "RLE / bit-packing hybrid streams built from the format description (1-6 runs, RLE runs of 1..100 values — not only multiples of 8 —, bit-packed runs of whole groups, the last one possibly padded; bit widths 1-32 (booleans, levels, integers / dictionary indexes); " +
 		"booleans with their 4-byte length prefix, levels without) are decoded by the library: the decoded values must be the ones the stream encodes. Non-trivial = at least two runs, one of them an RLE run whose length is not a multiple of 8.",
 	Assumptions: []string{"the property's 'match the format spec for every input' is read as covering the decoders' inputs: any stream the specification allows, not only those this library's encoders emit"},
 	Gen:         genForeignCase,
